@@ -13,7 +13,9 @@ __all__ = (
     "StaticUseDep",
     "SubSlotDep",
     "UseDepDefault",
+    "VersionGlobMatch",
     "VersionMatch",
+    "ver_glob_match",
 )
 
 import typing
@@ -152,6 +154,53 @@ class VersionMatch(packages.PackageRestriction):
 
     def match(self, pkg, *args, **kwds):
         return self.restriction.match(pkg)
+
+
+def ver_glob_match(fullver: str, glob: str) -> bool:
+    """Check if ``fullver`` is matched by the ``=glob*`` version operator.
+
+    Per PMS only the given number of version components is compared, so
+    ``glob`` has to be a prefix of ``fullver`` that ends on a boundary between
+    version components: 1* matches 1, 1.2, 1_p1, 1a and 1-r1, but not 10;
+    1_p* does not match 1_pre.
+    """
+    if not fullver.startswith(glob):
+        return False
+    next_char = fullver[len(glob) : len(glob) + 1]
+    return next_char in "._-" or glob[-1].isdigit() != next_char.isdigit()
+
+
+class _VersionGlobMatch(GenericEquality, restriction.base):
+    """value restriction implementing the ``=ver*`` operator, see :func:`ver_glob_match`"""
+
+    __slots__ = ("glob", "negate")
+    __attr_comparison__ = ("glob", "negate")
+
+    type = restriction.value_type
+    attr = "fullver"
+
+    def __init__(self, glob: str, negate=False):
+        self.glob = glob
+        self.negate = negate
+
+    def match(self, value, *args, **kwargs):
+        return ver_glob_match(str(value), self.glob) != self.negate
+
+    def __str__(self):
+        return f"ver {'not ' if self.negate else ''}=* {self.glob}"
+
+    def __repr__(self):
+        return f"<{self.__class__.__name__} {self.glob}* negate={self.negate} @#x>"
+
+    def __hash__(self):
+        return hash((self.glob, self.negate))
+
+
+class VersionGlobMatch(packages.PackageRestriction):
+    __slots__ = ()
+
+    def __init__(self, fullver: str, negate=False):
+        super().__init__("fullver", _VersionGlobMatch(fullver), negate=negate)
 
 
 class SlotDep(packages.PackageRestriction):
